@@ -18,7 +18,7 @@ import json
 from pathlib import Path
 from typing import Dict, List, Optional, Set, Tuple
 
-from ..cfg import BASE, CFG, EXC
+from ..cfg import BASE, CFG, EXC, edges_guaranteeing
 from ..engine import (
     AnalysisError,
     FuncNode,
@@ -974,6 +974,7 @@ def run(repo: Repo, R: Report) -> None:
     _closing_code_rules(repo, R, fn, g, drivers)
     _exception_text_rules(repo, R)
     _closing_helpers_total_rule(repo, R)
+    _closing_key_lookup_rule(repo, R)
     _propagation_rules(repo, R, X)
 
     # ------------------------------------------------------------------ D3 ids, order, edges
@@ -2146,6 +2147,61 @@ def _record_literal(repo: Repo, qn: str) -> Tuple[Optional[str], Optional[ast.Di
     return None, None, nf
 
 
+def _filters_items_by_value_only(n: ast.DictComp) -> bool:
+    """``{k: item for <k, item of R> if <test of item>}``: a filtered copy of one mapping R whose single filter speaks
+    about the *value* stored under the key - `item is not None` (also `not item is None`) or `isinstance(item, T)`.
+    The traversal may be spelled `for k, v in R.items()` (item is `v` or `R[k]`) or `for k in R` / `R.keys()` /
+    `list(R)` / `sorted(R)` / `tuple(R)` (item is `R[k]`); what is decided is the role of each part, not its spelling."""
+    if len(n.generators) != 1 or len(n.generators[0].ifs) != 1 or n.generators[0].is_async:
+        return False
+    gen = n.generators[0]
+    t, it = gen.target, gen.iter
+    items: Set[str] = set()
+    key: Optional[str] = None
+
+    def mapping_of(e: ast.AST) -> Optional[str]:
+        """The mapping whose keys *e* enumerates."""
+        if isinstance(e, ast.Call) and isinstance(e.func, ast.Name) and e.func.id in ("list", "tuple", "sorted", "iter") and len(e.args) == 1 and not e.keywords:
+            return mapping_of(e.args[0])
+        if isinstance(e, ast.Call) and isinstance(e.func, ast.Attribute) and e.func.attr == "keys" and not e.args and not e.keywords:
+            return dotted_name(e.func.value)
+        return dotted_name(e)
+
+    if isinstance(t, ast.Tuple) and len(t.elts) == 2 and all(isinstance(x, ast.Name) for x in t.elts):
+        inner = it
+        if isinstance(inner, ast.Call) and isinstance(inner.func, ast.Name) and inner.func.id in ("list", "tuple", "sorted", "iter") and len(inner.args) == 1 and not inner.keywords:
+            inner = inner.args[0]
+        if isinstance(inner, ast.Call) and isinstance(inner.func, ast.Attribute) and inner.func.attr == "items" and not inner.args and not inner.keywords and dotted_name(inner.func.value):
+            key = t.elts[0].id
+            items = {t.elts[1].id, f"{dotted_name(inner.func.value)}[{key}]"}
+    elif isinstance(t, ast.Name):
+        m = mapping_of(it)
+        if m:
+            key = t.id
+            items = {f"{m}[{key}]"}
+    if key is None or not (isinstance(n.key, ast.Name) and n.key.id == key):
+        return False
+
+    def is_item(e: ast.AST) -> bool:
+        if isinstance(e, ast.Name):
+            return e.id in items
+        if isinstance(e, ast.Subscript) and isinstance(e.slice, ast.Name) and dotted_name(e.value):
+            return f"{dotted_name(e.value)}[{e.slice.id}]" in items
+        return False
+
+    if not is_item(n.value):
+        return False
+    f = gen.ifs[0]
+    negated = False
+    while isinstance(f, ast.UnaryOp) and isinstance(f.op, ast.Not):
+        f, negated = f.operand, not negated
+    if isinstance(f, ast.Compare) and len(f.ops) == 1 and _is_none(f.comparators[0]) and is_item(f.left):
+        return (isinstance(f.ops[0], ast.IsNot) and not negated) or (isinstance(f.ops[0], ast.Is) and negated)
+    if isinstance(f, ast.Call) and isinstance(f.func, ast.Name) and f.func.id == "isinstance" and len(f.args) == 2 and not f.keywords and is_item(f.args[0]):
+        return not negated
+    return False
+
+
 def _only_in_type_error_fallback(g: CFG, site: ast.AST) -> bool:
     """Every path from the entry of the function to the statement of *site* enters a handler that catches TypeError
     (`except TypeError`, `except (TypeError, ..)`): the statement runs only after something raised TypeError."""
@@ -2291,9 +2347,7 @@ def _schema_rules(repo: Repo, R: Report, X: Optional["_Exec"] = None) -> None:
     for n in walk_no_nested(one):
         if isinstance(n, ast.DictComp) and n.generators and n.generators[0].ifs:
             # the filter speaks about the *value* being iterated: `<v> is not None`, or a JSON-type test of <v>
-            ok = len(n.generators) == 1 and len(n.generators[0].ifs) == 1 and (
-                pat.match("{_K_: _V_ for _K_, _V_ in _R_.items() if _V_ is not None}", n) is not None
-                or pat.match("{_K_: _V_ for _K_, _V_ in _R_.items() if isinstance(_V_, _T_)}", n) is not None)
+            ok = _filters_items_by_value_only(n)
             R.check(ok, r, JSONL, "JsonlTraceDriver.on_node_event", norm(stmt_of(n))[:120], "SER keys are filtered by something other than `is not None` / JSON-type fallback", n.lineno)
 
 
@@ -3976,9 +4030,16 @@ class _ClosingClosure:
                     self.walk(m_, t_, t_, Lc, path + (qualname_of(t_),), depth + 1)
 
 
+def _closing_closure(repo: Repo) -> "_ClosingClosure":
+    C = repo.__dict__.get("_c06_closing_closure")
+    if C is None:
+        C = repo.__dict__["_c06_closing_closure"] = _ClosingClosure(repo)
+    return C
+
+
 def _closing_helpers_total_rule(repo: Repo, R: Report) -> None:
     r = R.rule("C06-D1h-closing-helpers-total-on-user-values", "the helpers execute() calls from its handlers / finally blocks (context snapshot, delta provider, post-checks, summaries, SER builder, and what they call) never coerce the payload data / a context entry - or the result of a rich comparison of such values - to a truth value outside a try that contains Exception: `bool(a == b)` raises ValueError for array-likes (numpy, pandas, containers of them); raised inside `except BaseException` it loses the SER of the failed node and replaces the original exception", 3)
-    C = _ClosingClosure(repo)
+    C = _closing_closure(repo)
     if len(C.info) < 3:
         raise AnalysisError("execute(): the helpers called from its handlers were not found (call graph from the closing code is empty)")
     n_funcs = 0
@@ -4010,3 +4071,402 @@ def _closing_helpers_total_rule(repo: Repo, R: Report) -> None:
             R.ok(r, mod.rel, qn, f"{qn}: truth tests of user values", "none, or contained")
     if n_funcs < 2:
         raise AnalysisError("closing code: no helper that receives the run state was found on the call graph from execute()'s handlers")
+
+
+# ---------------------------------------------------------------------------
+# D1i: the closing code looks up no mapping key that may be absent (round 7)
+# ---------------------------------------------------------------------------
+
+KEY_CONTAINING = {"KeyError", "LookupError", "Exception", "BaseException"}
+
+
+def _contained_for(node: ast.AST, classes: Set[str]) -> bool:
+    """*node* is evaluated in the body of a try one of whose handlers catches a class in *classes* (or everything) and
+    does not raise again."""
+    cur = node
+    for a in ancestors(node):
+        if isinstance(a, FuncNode + (ast.Lambda,)):
+            break
+        if isinstance(a, ast.Try) and any(cur is st for st in a.body):
+            for h in a.handlers:
+                names = {"BaseException"} if h.type is None else {(dotted_name(x) or "").split(".")[-1] for x in (h.type.elts if isinstance(h.type, ast.Tuple) else [h.type])}
+                if names & classes and not any(isinstance(x, ast.Raise) for st in h.body for x in walk_no_nested(st)):
+                    return True
+        if isinstance(a, (ast.With, ast.AsyncWith)) and any(cur is st for st in a.body):
+            for item in a.items:
+                ce = item.context_expr
+                if isinstance(ce, ast.Call) and (dotted_name(ce.func) or "").split(".")[-1] == "suppress" and any((dotted_name(x) or "").split(".")[-1] in classes for x in ce.args):
+                    return True
+        cur = a
+    return False
+
+
+def _display_keys(v: Optional[ast.AST]) -> Optional[Set[str]]:
+    """Constant text keys a dict display / ``dict(k=..)`` certainly holds (None: not a display)."""
+    if isinstance(v, ast.Dict):
+        return {k.value for k in v.keys if isinstance(k, ast.Constant) and isinstance(k.value, str)}
+    if isinstance(v, ast.Call) and isinstance(v.func, ast.Name) and v.func.id == "dict" and not v.args:
+        return {k.arg for k in v.keywords if k.arg is not None}
+    return None
+
+
+def _copy_of(v: ast.AST, base: str) -> bool:
+    """*v* is the mapping *base* itself or a (possibly extended) copy of it."""
+    if dotted_name(v) == base:
+        return True
+    if isinstance(v, ast.Dict):
+        return any(k is None and _copy_of(sv, base) for k, sv in zip(v.keys, v.values))
+    if isinstance(v, ast.BinOp) and isinstance(v.op, ast.BitOr):
+        return _copy_of(v.left, base) or _copy_of(v.right, base)
+    if isinstance(v, ast.Call):
+        f = v.func
+        if isinstance(f, ast.Name) and f.id in ("dict", "deepcopy", "copy") and len(v.args) == 1:
+            return _copy_of(v.args[0], base)
+        if isinstance(f, ast.Attribute) and f.attr == "copy" and not v.args and not v.keywords:
+            return _copy_of(f.value, base)
+        if isinstance(f, ast.Attribute) and f.attr in ("deepcopy", "copy") and len(v.args) == 1 and dotted_name(f.value) == "copy":
+            return _copy_of(v.args[0], base)
+    return False
+
+
+class _KeyFacts:
+    """Decides, for a lookup ``B[<text constant>]`` (or ``B.pop(<const>)`` without default / ``del B[<const>]``),
+    whether the key is present in B on *every* path that reaches the lookup: a forward must-analysis on the CFG of the
+    function (the fact is established by binding B to a display that holds the key, by a store `B[k] = ..`,
+    `B.setdefault(k, ..)`, `B.update({k: ..})`, by the edge of a test on which `k in B` / `B.get(k)` is known to hold;
+    it is lost when B is rebound or the key removed; an exception edge leaves a statement before it established
+    anything), continued through the arguments at the call sites when B is a parameter and through the return values
+    of a package function when B is bound to a call."""
+
+    def __init__(self, repo: Repo, sites_of=None):
+        self.repo = repo
+        self.sites_of = sites_of or (lambda fn: [])
+        self._cfg: Dict[int, CFG] = {}
+        self._where: Dict[int, Dict[int, List[int]]] = {}
+        self._busy: Set[Tuple[int, str, str]] = set()
+
+    def cfg(self, fn: ast.AST) -> CFG:
+        if id(fn) not in self._cfg:
+            g = CFG(fn)
+            self._cfg[id(fn)] = g
+            where: Dict[int, List[int]] = {}
+            for n in g.nodes:
+                part = n.part if n.kind != "except" else None
+                if part is None or (n.kind == "stmt" and isinstance(n.ast, FuncNode + (ast.ClassDef,))):
+                    continue
+                for x in walk_no_nested(part):
+                    where.setdefault(id(x), []).append(n.id)
+            self._where[id(fn)] = where
+        return self._cfg[id(fn)]
+
+    def nodes_of(self, fn: ast.AST, e: ast.AST) -> List[int]:
+        self.cfg(fn)
+        return self._where[id(fn)].get(id(e), [])
+
+    # -- the atom `key in base` ------------------------------------------------
+    @staticmethod
+    def atom(base: str, key: str):
+        def is_get(e: ast.AST) -> bool:
+            return (isinstance(e, ast.Call) and isinstance(e.func, ast.Attribute) and e.func.attr == "get" and len(e.args) == 1 and not e.keywords
+                    and isinstance(e.args[0], ast.Constant) and e.args[0].value == key and dotted_name(e.func.value) == base)
+
+        def at(e: ast.AST) -> Optional[bool]:
+            if isinstance(e, ast.Compare) and len(e.ops) == 1:
+                a, b, op = e.left, e.comparators[0], e.ops[0]
+                if isinstance(a, ast.Constant) and a.value == key and isinstance(op, (ast.In, ast.NotIn)):
+                    holder = b
+                    if isinstance(holder, ast.Call) and isinstance(holder.func, ast.Attribute) and holder.func.attr == "keys" and not holder.args:
+                        holder = holder.func.value
+                    if dotted_name(holder) == base:
+                        return isinstance(op, ast.In)
+                nt = _none_test(e)
+                if nt is not None and is_get(nt[0]) and isinstance(op, (ast.Is, ast.IsNot)):
+                    return nt[1]
+            if is_get(e):
+                return True     # a true `B.get(k)` was found under k
+            return None
+        return at
+
+    def _guarded_in_expression(self, sub: ast.AST, base: str, key: str) -> bool:
+        """`B[k] if k in B else d`, `k in B and B[k]`, `k not in B or B[k]`, `[.. B[k] .. for .. if k in B]`."""
+        at = self.atom(base, key)
+        cur = sub
+        for a in ancestors(sub):
+            if isinstance(a, ast.stmt) or isinstance(a, FuncNode + (ast.Lambda,)):
+                break
+            if isinstance(a, ast.IfExp):
+                e = edges_guaranteeing(a.test, at)
+                if (cur is a.body and "T" in e) or (cur is a.orelse and "F" in e):
+                    return True
+            elif isinstance(a, ast.BoolOp):
+                idx = next((i for i, v in enumerate(a.values) if v is cur), 0)
+                want = "T" if isinstance(a.op, ast.And) else "F"
+                if any(want in edges_guaranteeing(v, at) for v in a.values[:idx]):
+                    return True
+            elif isinstance(a, (ast.ListComp, ast.SetComp, ast.GeneratorExp, ast.DictComp)):
+                inside_elt = cur is not None and not isinstance(cur, ast.comprehension)
+                if inside_elt and any("T" in edges_guaranteeing(t, at) for g_ in a.generators for t in g_.ifs):
+                    return True
+            cur = a
+        return False
+
+    # -- what a CFG node does to the fact ------------------------------------
+    def _value_has(self, mod, fn: ast.AST, v: Optional[ast.AST], key: str, at_nodes: List[int], depth: int) -> bool:
+        if v is None or depth > 3:
+            return False
+        keys = _display_keys(v)
+        if keys is not None:
+            if key in keys:
+                return True
+            if isinstance(v, ast.Dict):
+                return any(k is None and self._value_has(mod, fn, sv, key, at_nodes, depth + 1) for k, sv in zip(v.keys, v.values))
+            return False
+        if isinstance(v, ast.IfExp):
+            return self._value_has(mod, fn, v.body, key, at_nodes, depth + 1) and self._value_has(mod, fn, v.orelse, key, at_nodes, depth + 1)
+        if isinstance(v, ast.NamedExpr):
+            return self._value_has(mod, fn, v.value, key, at_nodes, depth + 1)
+        if isinstance(v, ast.BinOp) and isinstance(v.op, ast.BitOr):
+            return self._value_has(mod, fn, v.left, key, at_nodes, depth + 1) or self._value_has(mod, fn, v.right, key, at_nodes, depth + 1)
+        if isinstance(v, ast.Call):
+            f = v.func
+            if isinstance(f, ast.Name) and f.id == "dict" and len(v.args) == 1:
+                return key in {k.arg for k in v.keywords} or self._value_has(mod, fn, v.args[0], key, at_nodes, depth + 1)
+            if isinstance(f, ast.Attribute) and f.attr == "copy" and not v.args and not v.keywords:
+                return self._value_has(mod, fn, f.value, key, at_nodes, depth + 1)
+            if isinstance(f, ast.Name) and f.id in ("deepcopy",) or (isinstance(f, ast.Attribute) and f.attr == "deepcopy"):
+                return bool(v.args) and self._value_has(mod, fn, v.args[0], key, at_nodes, depth + 1)
+            return self._returns_have(mod, v, key, depth + 1)
+        if dotted_name(v) is not None:
+            return bool(at_nodes) and self.holds(mod, fn, dotted_name(v), key, at_nodes, depth + 1)
+        return False
+
+    def _returns_have(self, mod, call: ast.Call, key: str, depth: int) -> bool:
+        try:
+            targets = [t for t in self.repo.resolve_call(mod, call) if isinstance(t[1], FuncNode)]
+        except Exception:
+            targets = []
+        concrete = [t for t in targets if not _is_abstract(t[1])]
+        if not concrete:
+            return False
+        for m_, t_ in concrete:
+            tag = (id(t_), "<return>", key)
+            if tag in self._busy:
+                return False
+            self._busy.add(tag)
+            try:
+                rets = [r_ for r_ in walk_no_nested(t_) if isinstance(r_, ast.Return)]
+                if not rets or any(isinstance(x, (ast.Yield, ast.YieldFrom)) for x in walk_no_nested(t_)):
+                    return False
+                for r_ in rets:
+                    if not self._value_has(m_, t_, r_.value, key, self.nodes_of(t_, r_), depth):
+                        return False
+            finally:
+                self._busy.discard(tag)
+        return True
+
+    def _effect(self, mod, fn: ast.AST, n, base: str, key: str, depth: int) -> Tuple[bool, bool]:
+        """(establishes, loses) the fact `key in base` when CFG node *n* completes normally."""
+        root = base.split(".")[0]
+        gen = kill = keeps = False
+        a = n.ast
+        if a is None:
+            return False, False
+        if n.kind == "stmt" and not isinstance(a, FuncNode + (ast.ClassDef,)):
+            pairs: List[Tuple[ast.AST, Optional[ast.AST]]] = []
+            if isinstance(a, ast.Assign):
+                pairs = [(t, a.value) for t in a.targets]
+            elif isinstance(a, ast.AnnAssign):
+                pairs = [(a.target, a.value)]
+            for t, v in pairs:
+                if isinstance(t, (ast.Tuple, ast.List)) and isinstance(v, (ast.Tuple, ast.List)) and len(t.elts) == len(v.elts):
+                    sub_pairs = list(zip(t.elts, v.elts))
+                else:
+                    sub_pairs = [(t, v)]
+                for t2, v2 in sub_pairs:
+                    if dotted_name(t2) == base and v2 is not None:
+                        if _copy_of(v2, base):
+                            keeps = True    # `B = dict(B)` / `B = {**B, ..}`: what held of B still holds
+                            if key in (_display_keys(v2) or set()):
+                                gen = True
+                            continue
+                        # the right-hand side is evaluated with the facts that hold on entry to this statement
+                        if self._value_has(mod, fn, v2, key, [n.id], depth):
+                            gen = True
+                        else:
+                            kill = True
+                    elif isinstance(t2, ast.Subscript) and dotted_name(t2.value) == base and isinstance(t2.slice, ast.Constant) and t2.slice.value == key:
+                        gen = True
+            if isinstance(a, ast.AugAssign) and dotted_name(a.target) == base and isinstance(a.op, ast.BitOr) and self._value_has(mod, fn, a.value, key, [n.id], depth):
+                gen = True
+            if isinstance(a, ast.Delete):
+                for t in a.targets:
+                    if isinstance(t, ast.Subscript) and dotted_name(t.value) == base:
+                        kill = True
+        part = n.part if n.kind != "except" else None
+        if part is not None and not (n.kind == "stmt" and isinstance(a, FuncNode + (ast.ClassDef,))):
+            for c in walk_no_nested(part):
+                if isinstance(c, ast.Call) and isinstance(c.func, ast.Attribute) and dotted_name(c.func.value) == base:
+                    m_ = c.func.attr
+                    if m_ == "setdefault" and c.args and isinstance(c.args[0], ast.Constant) and c.args[0].value == key:
+                        gen = True
+                    elif m_ == "update" and ((c.args and key in (_display_keys(c.args[0]) or set())) or any(k.arg == key for k in c.keywords)):
+                        gen = True
+                    elif m_ in ("pop", "__delitem__") and not (c.args and isinstance(c.args[0], ast.Constant) and c.args[0].value != key):
+                        kill = True
+                    elif m_ in ("clear", "popitem"):
+                        kill = True
+        defs, unb = _node_defs(n)
+        if root in unb:
+            kill = True
+        if root in defs and not gen and not keeps:
+            kill = True
+        return gen, (kill and not gen)
+
+    def holds(self, mod, fn: ast.AST, base: str, key: str, at_nodes: List[int], depth: int = 0) -> bool:
+        """`key in base` on every path from the entry of *fn* to each of *at_nodes*."""
+        if depth > 4 or isinstance(fn, ast.Lambda):
+            return False
+        tag = (id(fn), base, key)
+        if tag in self._busy:
+            return False
+        self._busy.add(tag)
+        try:
+            g = self.cfg(fn)
+            at = self.atom(base, key)
+            effects: Dict[int, Tuple[bool, bool]] = {}
+
+            def run_from(entry_fact: bool) -> bool:
+                seen: Set[Tuple[int, bool]] = {(g.entry, entry_fact)}
+                todo = [(g.entry, entry_fact)]
+                while todo:
+                    nid, has = todo.pop()
+                    n = g.nodes[nid]
+                    if nid not in effects:
+                        effects[nid] = self._effect(mod, fn, n, base, key, depth)
+                    gen, kill = effects[nid]
+                    guaranteed = edges_guaranteeing(n.part, at) if n.kind in ("if", "while") and n.part is not None else set()
+                    for t, lab in g.succ[nid]:
+                        if lab in (EXC, BASE):
+                            out = has and not kill
+                        else:
+                            out = (has or gen) and not kill
+                            if lab in guaranteed:
+                                out = True
+                        if (t, out) not in seen:
+                            seen.add((t, out))
+                            todo.append((t, out))
+                return not any((u, False) in seen for u in at_nodes)
+
+            if run_from(False):
+                return True
+            # B is a parameter of the function: the mapping every caller hands over holds the key
+            if base in _param_names(fn) and run_from(True):
+                sites = self.sites_of(fn)
+                if not sites:
+                    return False
+                for c in sites:
+                    binding = _bind_params(fn, c) or {}
+                    arg = binding.get(base)
+                    from ..engine import enclosing_function
+                    caller = enclosing_function(c)
+                    if arg is None or caller is None or isinstance(caller, ast.Lambda):
+                        return False
+                    cmod = self.repo.module_of(caller)
+                    if not self._value_has(cmod, caller, arg, key, self.nodes_of(caller, c), depth + 1):
+                        return False
+                return True
+            # B is an attribute of the instance: every store of it in the class binds a display that holds the key
+            if base.startswith("self.") and base.count(".") == 1:
+                from ..engine import enclosing_class
+                cls = enclosing_class(fn)
+                if cls is None:
+                    return False
+                stores = 0
+                for x in ast.walk(cls):
+                    if isinstance(x, (ast.Assign, ast.AnnAssign)):
+                        for t in (x.targets if isinstance(x, ast.Assign) else [x.target]):
+                            if dotted_name(t) == base:
+                                if x.value is None or key not in (_display_keys(x.value) or set()):
+                                    return False
+                                stores += 1
+                    elif isinstance(x, ast.Call) and isinstance(x.func, ast.Attribute) and dotted_name(x.func.value) == base and x.func.attr in ("pop", "clear", "popitem", "__delitem__"):
+                        return False
+                    elif isinstance(x, ast.Delete) and any(isinstance(t, ast.Subscript) and dotted_name(t.value) == base for t in x.targets):
+                        return False
+                return stores > 0
+            return False
+        finally:
+            self._busy.discard(tag)
+
+
+def _key_lookups(region: ast.AST) -> List[Tuple[ast.AST, ast.AST, str, str]]:
+    """[(site, base expression, key, how)] for the lookups of a constant text key evaluated in *region* that raise
+    KeyError when the key is absent; annotations are not evaluated code and are skipped."""
+    skip: Set[int] = set()
+    for x in ast.walk(region):
+        if isinstance(x, ast.AnnAssign):
+            skip |= {id(y) for y in ast.walk(x.annotation)}
+        elif isinstance(x, ast.arg) and x.annotation is not None:
+            skip |= {id(y) for y in ast.walk(x.annotation)}
+        elif isinstance(x, FuncNode) and x.returns is not None:
+            skip |= {id(y) for y in ast.walk(x.returns)}
+    out: List[Tuple[ast.AST, ast.AST, str, str]] = []
+    for x in walk_no_nested(region):
+        if id(x) in skip:
+            continue
+        if isinstance(x, ast.Subscript) and isinstance(x.ctx, (ast.Load, ast.Del)) and isinstance(x.slice, ast.Constant) and isinstance(x.slice.value, str):
+            out.append((x, x.value, x.slice.value, "subscript"))
+        elif (isinstance(x, ast.Call) and isinstance(x.func, ast.Attribute) and x.func.attr in ("pop", "__getitem__", "__delitem__") and len(x.args) == 1 and not x.keywords
+              and isinstance(x.args[0], ast.Constant) and isinstance(x.args[0].value, str)):
+            out.append((x, x.func.value, x.args[0].value, f".{x.func.attr}() without default"))
+    return out
+
+
+def _closing_key_lookup_rule(repo: Repo, R: Report) -> None:
+    r = R.rule("C06-D1i-closing-code-key-lookups-total", "the code that runs while execute() holds a caught exception (its handlers / finally blocks and every helper they call) looks up a constant key of a mapping (`m['k']`, `m.pop('k')`, `del m['k']`) only when the key is present on every path: bound by a display / store / setdefault that dominates the lookup (through call arguments and return values), proven by a `'k' in m` / `m.get('k')` test edge, or inside a try that contains KeyError - a key that is written only under a condition (a summary that exists only at some trace detail levels) raises KeyError inside `except BaseException`: the error SER / pipeline_end is not written and the caller gets KeyError instead of the exception of the node", 3)
+    C = _closing_closure(repo)
+    if len(C.info) < 3:
+        raise AnalysisError("execute(): the helpers called from its handlers were not found (call graph from the closing code is empty)")
+    by_fn = {fid: sites for fid, (_m, _f, _p, sites) in C.info.items()}
+    K = _KeyFacts(repo, sites_of=lambda fn: by_fn.get(id(fn), []))
+    typing_like = {"Optional", "Union", "List", "Dict", "Tuple", "Set", "Callable", "Type", "Literal", "Annotated", "ClassVar", "Final", "Sequence", "Mapping", "Iterable", "Iterator"}
+
+    def decide(mod, fn: ast.AST, region: ast.AST, qn: str, path: Tuple[str, ...], sites: List[ast.Call]) -> int:
+        bad = 0
+        lookups = _key_lookups(region)
+        for site, base_e, key, how in lookups:
+            if isinstance(base_e, ast.Name) and base_e.id in typing_like and base_e.id not in _local_names(fn):
+                continue    # Optional["Forward"] inside a cast(...) - a type expression
+            if _contained_for(site, KEY_CONTAINING):
+                continue
+            if sites and all(_contained_for(c, KEY_CONTAINING) for c in sites):
+                continue
+            base = dotted_name(base_e)
+            ok = False
+            if base is not None:
+                ok = K._guarded_in_expression(site, base, key) or K.holds(mod, fn, base, key, K.nodes_of(fn, site))
+                if not ok and isinstance(base_e, ast.Name) and base_e.id not in _local_names(fn):
+                    # a module-level table: a display that holds the key
+                    lit = _module_literal(repo, mod, fn, base_e)
+                    ok = key in (_display_keys(lit) or set())
+            else:
+                ok = K._value_has(mod, fn, base_e, key, K.nodes_of(fn, site), 0)
+            if not ok:
+                bad += 1
+                R.violation(r, mod.rel, qn, norm(stmt_of(site))[:110],
+                            f"`{norm(site)[:60]}` ({how}) looks up the key {key!r}, which is not present on every path that reaches this statement (it is stored only under a condition, or by the caller only sometimes), outside any try that contains KeyError. The statement runs inside execute()'s handlers ({' -> '.join(path[-4:])}): when the key is absent KeyError is raised there, the error SER / pipeline_end is not written and the caller receives KeyError instead of the exception the node raised", site.lineno)
+        return bad
+
+    n_funcs = 0
+    raw = C.raw
+    for label, body in _handler_regions(raw):
+        bad = sum(decide(C.omod, raw, st, EXECUTE, (EXECUTE,), []) for st in body)
+        if not bad:
+            R.ok(r, ORCH, EXECUTE, f"{label}: key lookups", "none, or the key is present on every path")
+    for _id, (mod, fn, path, sites) in sorted(C.info.items(), key=lambda kv: (kv[1][0].rel, kv[1][1].lineno)):
+        n_funcs += 1
+        qn = qualname_of(fn)
+        if not decide(mod, fn, fn, qn, path, sites):
+            R.ok(r, mod.rel, qn, f"{qn}: key lookups", "none, or the key is present on every path")
+    if n_funcs < 3:
+        raise AnalysisError("closing code: fewer than three helpers on the call graph from execute()'s handlers")
